@@ -256,6 +256,53 @@ ResultOK(db, q, res) == ResultOKm(db, q, res, FALSE)
 \* wrong, and exactly as the running rounded mean predicts (groups, counts and everything else right)
 KnownRunningAvg(db, q, res) == ~ResultOK(db, q, res) /\ HasAgg(q) /\ ResultOKm(db, q, res, TRUE)
 -----------------------------------------------------------------------------
+(* INSERT, UPDATE and DELETE (engine/insert.go, update.go, delete.go) on one *)
+(* table.  d = [k, tbl, where, set, row]: k = "insert" appends d.row;        *)
+(* "update" assigns set = <<[c, val]>> in, and "delete" removes, the rows    *)
+(* for which the WHERE holds - with the meaning the same text has in a       *)
+(* SELECT; every other row stays what and where it is.  A failed statement   *)
+(* changes nothing.                                                          *)
+(* Which statements fail: the engine evaluates the WHERE row by row and      *)
+(* looks at the assignments once per row to change, so                       *)
+(*  - a WHERE naming a column the table does not have must fail as soon as   *)
+(*    the table holds a row (on an empty table either answer is accepted);   *)
+(*  - an UPDATE assigning a missing column, or one column twice, must fail   *)
+(*    as soon as it has a row to change (with none, either answer);          *)
+(*  - a column qualified with the table's own name (t5.a) is not resolved in *)
+(*    UPDATE / DELETE as found (the rows carry no table identifier there):   *)
+(*    a named deviation - the statement may fail, and where it does not it   *)
+(*    means what it means in a SELECT.                                       *)
+(* res = <<[err, rows]>>, one element per statement of a history: what the   *)
+(* statement returned and what SELECT * returned after it.                   *)
+DmlRel(db, d) == TableRel(db, [tbl |-> d.tbl, alias |-> ""])
+Unqualified(f) == [i \in 1..Len(f) |-> [q |-> "", c |-> f[i].c]]
+DmlHit(f, d, r) == d.where = <<>> \/ CondHolds(f, r, d.where)
+WhereBad(db, d) == d.k # "insert" /\ d.where # <<>> /\ CondBad(DmlRel(db, d).f, d.where)
+WhereBadAsFound(db, d) == d.k # "insert" /\ d.where # <<>> /\ CondBad(Unqualified(DmlRel(db, d).f), d.where)
+SetBad(db, d) == LET f == DmlRel(db, d).f IN
+  d.k = "update" /\ \/ \E j \in 1..Len(d.set) : Missing(f, [q |-> "", c |-> d.set[j].c])
+                    \/ \E i, j \in 1..Len(d.set) : i # j /\ d.set[i].c = d.set[j].c
+HitsAny(db, d) == LET rel == DmlRel(db, d) IN \E i \in 1..Len(rel.rows) : DmlHit(rel.f, d, rel.rows[i])
+DmlMustFail(db, d) == IF WhereBad(db, d) THEN DmlRel(db, d).rows # <<>> ELSE SetBad(db, d) /\ HitsAny(db, d)
+DmlMayFail(db, d) == WhereBad(db, d) \/ WhereBadAsFound(db, d) \/ SetBad(db, d)
+Assigned(f, d, r) == [i \in 1..Len(f) |-> LET js == {j \in 1..Len(d.set) : d.set[j].c = f[i].c}
+                                          IN IF js = {} THEN r[i] ELSE d.set[CHOOSE j \in js : TRUE].val]
+\* the table after a statement that succeeded (only asked where ~DmlMustFail)
+DmlRows(db, d) ==
+  LET rel == DmlRel(db, d) IN
+  CASE d.k = "insert" -> Append(rel.rows, d.row)
+    [] WhereBad(db, d) \/ SetBad(db, d) -> rel.rows           \* succeeded because there was no row to look at
+    [] d.k = "delete" -> SelectSeq(rel.rows, LAMBDA r : ~DmlHit(rel.f, d, r))
+    [] d.k = "update" -> [i \in 1..Len(rel.rows) |-> IF DmlHit(rel.f, d, rel.rows[i]) THEN Assigned(rel.f, d, rel.rows[i]) ELSE rel.rows[i]]
+StepOK(db, d, r) == IF r.err THEN DmlMayFail(db, d) /\ r.rows = DmlRel(db, d).rows
+                    ELSE ~DmlMustFail(db, d) /\ r.rows = DmlRows(db, d)
+\* the first statement of the history from i on that is answered wrongly (0: none); the history goes on from what was observed
+RECURSIVE HistoryBadAt(_, _, _, _)
+HistoryBadAt(db, ds, res, i) ==
+  IF i > Len(ds) THEN 0
+  ELSE IF StepOK(db, ds[i], res[i]) THEN HistoryBadAt([db EXCEPT ![ds[i].tbl].rows = res[i].rows], ds, res, i + 1) ELSE i
+HistoryOK(db, ds, res) == Len(res) = Len(ds) /\ HistoryBadAt(db, ds, res, 1) = 0
+-----------------------------------------------------------------------------
 (* Tables in which every row is a group of its own (C07, many groups).  For  *)
 (* a one-table query without WHERE / window whose grouping values are        *)
 (* pairwise distinct, ResultOK says: one result row per table row, and the   *)
